@@ -118,7 +118,8 @@ func (a *MobileIdentity5GS) GetMobileIdentity() (string, string, error) {
 	case "IMEI":
 		return a.GetIMEI(), idType, nil
 	case "5G-S-TMSI":
-		return a.Get5GTMSI(), idType, nil
+		tmsi5gs, _, err5gs := a.Get5GSTMSI()
+		return tmsi5gs, idType, err5gs
 	case "IMEISV":
 		return a.GetIMEISV(), idType, nil
 	default:
